@@ -39,7 +39,10 @@ MANIFEST = dict(
           "real containers under 2-8 goroutines and the Lean driver decides by exhaustive search whether each history is "
           "linearizable w.r.t. the very specification functions the theorems use (plus quiescent white-box shape facts); "
           "long permit bursts on the linked queue (producers publish a permit after Enqueue returned, consumers take one "
-          "before Dequeue) hand every suspicious answer to the same search as a small projection of the burst's history."),
+          "before Dequeue) hand every suspicious answer to the same search as a small projection of the burst's history; "
+          "stack bursts on the copy-on-write list (one writer popping/pushing at the tail, readers in Range with a yielding "
+          "callback) hand every traversal that is not strictly increasing to the search as the writer's overlapping calls "
+          "plus that traversal, from the list state before them."),
     note=COMMON_NOTE + (" Concurrency residue: sequential consistency of sync/atomic, unsafe.Pointer identity = node identity "
                         "(GC: no reuse while referenced), sync.RWMutex/sync.Mutex semantics and the atomicity of sync.Map's own "
                         "operations are definitions of the models (trusted). The heap inside ConcurrentPriorityQueue is a "
